@@ -31,8 +31,9 @@ func genC04(rng *rand.Rand, c *Case) {
 	c.Cfg["history"] = rng.Intn(5)
 	peers := 1 + rng.Intn(6)
 	for i := 0; i < peers; i++ {
-		// N: [handshake variant, credential variant, account index, first transaction type variant, tail length, seed, delay, banned]
-		c.Ops = append(c.Ops, Op{C: i, K: "peer", N: []int{rng.Intn(8), rng.Intn(12), rng.Intn(3), rng.Intn(4), rng.Intn(6), rng.Intn(1 << 30), rng.Intn(80), rng.Intn(8) / 7}})
+		// N: [handshake variant, credential variant, account index, first transaction type variant, tail length, seed, delay, banned,
+		//     shape of the first transaction: 0 whole, 1 absent (close after the handshake), 2 cut short, 3 longer than a transaction may be]
+		c.Ops = append(c.Ops, Op{C: i, K: "peer", N: []int{rng.Intn(8), rng.Intn(12), rng.Intn(3), rng.Intn(4), rng.Intn(6), rng.Intn(1 << 30), rng.Intn(80), rng.Intn(8) / 7, []int{0, 0, 0, 1, 2, 3}[rng.Intn(6)]}})
 	}
 }
 
@@ -155,6 +156,7 @@ func runC04(w *World) {
 		firstID   uint32
 		c         *Client
 		tailChat  string
+		noFirst   bool // the first transaction was never sent whole
 		sentTail  int
 		desc      string
 	}
@@ -269,6 +271,32 @@ func runC04(w *World) {
 			if op.N[0] == 2 {
 				buf = hs // a short handshake is followed by nothing: more bytes would complete it
 			}
+			shape := 0
+			if len(op.N) > 8 {
+				shape = op.N[8]
+			}
+			if pr.hsValid && shape != 0 {
+				// the first transaction never arrives whole: nobody is logged in, whatever accounts exist
+				enc := first.Encode()
+				switch shape {
+				case 1:
+					buf = append([]byte{}, hs...)
+				case 2:
+					buf = append(append([]byte{}, hs...), enc[:1+rng.Intn(len(enc)-1)]...)
+				case 3:
+					big := rp.Tran{Type: first.Type, ID: first.ID, Fields: append(append([]rp.Field{}, first.Fields...), rp.F(rp.FData, make([]byte, 65000)), rp.F(rp.FChatSubject, make([]byte, 30000)))}
+					buf = append(append([]byte{}, hs...), big.Encode()...)
+				}
+				pr.wantLogin = false
+				pr.noFirst = true
+				pr.sentTail = 0
+				pr.desc += fmt.Sprintf(", first transaction shape %d", shape)
+				w.Probe(fmt.Sprintf("first_transaction_shape_%d", shape))
+				_ = c.SendRaw(buf)
+				Delay(rng.Intn(30))
+				c.Disconnect()
+				return
+			}
 			if pr.hsValid {
 				for k := 0; k < op.N[4] && k < len(tail); k++ {
 					t := tail[(k+op.C)%len(tail)]
@@ -314,6 +342,12 @@ func runC04(w *World) {
 		if !pr.hsValid {
 			if len(c.HSReply)+len(c.Raw) != 0 {
 				w.Violate("c04-reply-to-bad-handshake", "peer %d sent an invalid handshake but received %d bytes", pr.op.C, len(c.HSReply)+len(c.Raw))
+			}
+			continue
+		}
+		if pr.noFirst {
+			if len(c.AllRecv) != 0 && !(pr.banned && len(c.AllRecv) == 1 && c.AllRecv[0].T.IsReply == 0) {
+				w.Violate("c04-traffic-to-unauthenticated-peer", "peer %d never sent a whole first transaction but received %d transactions (%s)", pr.op.C, len(c.AllRecv), pr.desc)
 			}
 			continue
 		}
